@@ -2,6 +2,7 @@ import XtModel.Props.C07
 import XtModel.Props.C09
 import XtModel.Props.C03
 import XtModel.Props.Json
+import XtModel.Props.C18
 
 /-!
 # C02 — Result is independent of input source and read schedule
@@ -88,5 +89,8 @@ example := @schedule_irrelevant_bytes ⟨[1, 2, 3], 0, [1], [], none⟩ ⟨[1, 2
 #print axioms Xt.Props.Json.json_slice_eq_reader_partial
 #print axioms Xt.Props.Json.json_slice_docs_prefix
 #print axioms Xt.Props.Json.json_unseparated_counterexample
+
+#print axioms Xt.Props.C18.msgpack_slice_eq_reader
+#print axioms Xt.Props.C18.depth_verdict_slice_eq_reader
 
 end Xt.Props.C02
